@@ -66,7 +66,8 @@ static void val_print_rec(NanoValue v, FILE *out, const void **chain, int depth)
             }
             break;
         case TAG_ENUM:
-            fprintf(out, "enum(%d)", v.as.enum_val);
+            /* enum constants are integers (spec 3.4.2); the C backend prints them as such */
+            fprintf(out, "%d", v.as.enum_val);
             break;
         case TAG_ARRAY:
             if (v.as.array) {
